@@ -67,12 +67,23 @@ Section Eval.
   Definition state_of (w : world) (id : nat) : ostate :=
     match nth_error (w_states w) id with Some s => s | None => {| os_mem := None; os_forced := false |} end.
 
-  (* the record written by _finish_run_info, minus user name, version and times *)
-  Definition run_info (tc : tclass) (o : obj) (cfg_name : str) : value :=
-    VDict [ (lit "task", VStr (c_slug tc));
-            (lit "parameters", VDict (map (fun pv => (pd_name (fst pv), VStr (value_repr (fst pv) (fst (snd pv))))) (o_params o)));
-            (lit "input_tasks", VDict (map (fun nk => (fst nk, VStr (snd nk))) (o_inkeys o)));
-            (lit "namespace", match o_ns o with Some n => VStr n | None => VNone end) ].
+  (* what the generated run() records and logs (harness convention): two records, one log token *)
+  Definition run_records (ins : list (str * value)) : list value :=
+    [VDict [(lit "inputs", VInt (Z.of_nat (List.length ins)))]; VStr (lit "second")].
+  Definition run_token (tc : tclass) : str := lit "token:" ++ c_slug tc.
+
+  Definition skv_leb (a b : str * value) : bool := str_leb (fst a) (fst b).
+
+  (* the record written by _finish_run_info, minus user name, class/module names, version and times;
+     mapping keys in sorted order *)
+  Definition run_info (tc : tclass) (o : obj) (ins : list (str * value)) : value :=
+    VDict [ (lit "config", VDict [ (lit "context", match o_ctxname o with Some n => VStr n | None => VNone end);
+                                   (lit "name", VStr (o_cfgname o ++ lit "/" ++ o_fullname o));
+                                   (lit "namespace", match o_ns o with Some n => VStr n | None => VNone end) ]);
+            (lit "input_tasks", VDict (isort skv_leb (map (fun nk => (fst nk, VStr (snd nk))) (o_inkeys o))));
+            (lit "log", VList (run_records ins));
+            (lit "parameters", VDict (isort skv_leb (map (fun pv => (pd_name (fst pv), VStr (value_repr (fst pv) (fst (snd pv))))) (o_params o))));
+            (lit "task", VStr (c_slug tc)) ].
 
   (* Task.data / Task.value.  Errors: ERun (run raised, here or upstream). *)
   Fixpoint eval (fuel : nat) (w : world) (id : nat) : world * res value :=
@@ -120,9 +131,9 @@ Section Eval.
                           | (w4, inr e) => (w4, inr ERun)
                           | (w4, inl ins) =>
                               let v := run (o_cls o) (persisted_reprs o) ins in
-                              let st1 := dset (log_path tc o) (FLog [lit "token"]) (w_store w4) in
+                              let st1 := dset (log_path tc o) (FLog [run_token tc]) (w_store w4) in
                               let st2 := if persisting (c_data tc) then dset final (FValue v) st1 else st1 in
-                              let st3 := dset (info_path tc o) (FInfo (run_info tc o [])) st2 in
+                              let st3 := dset (info_path tc o) (FInfo (run_info tc o ins)) st2 in
                               (set_state id {| os_mem := Some v; os_forced := os_forced s |} (with_store st3 w4), inl v)
                           end
                     end
